@@ -364,3 +364,7 @@ func VerifC03_q_scaleBetweenDeletes() {
 	verifAssert("C03/immutable-dp-keeps-replicas-sequential", held >= n-1, "an immutable deployment holds fewer IPs than replicas")
 	verifAssert("C03/agree-sequential", w.agree(), "memory and store disagree")
 }
+
+// BOUND: topology 0; two statefulset pods ss-0, ss-1 bound (symbolic policy); ss-0 disappears without its event being handled (so a resync pass has API calls to make); a resync pass runs and, atomically inside any one window right before/after one of its API-server calls (symbolic window 0..10), ss-1 is re-incarnated: deleted, its event handled, re-created with a new UID, filtered and bound on any approved node. The IP of the new, unfinished incarnation must not be released by the pass (it decides on what it re-reads under the pod lock, not on its list)
+// ASSUME: C03: same scenario as VerifC04_q_resyncVsReincarnation, checked under C03
+func VerifC03_q_resyncVsReincarnation() { vpResyncVsReincarnation("C03") }
